@@ -2149,7 +2149,8 @@ func (c *Conn) handleAckFrame(frame *wire.AckFrame, encLevel protocol.Encryption
 }
 
 func (c *Conn) handleDatagramFrame(f *wire.DatagramFrame) error {
-	if f.Length(c.version) > wire.MaxDatagramSize {
+	// [UQUIC] a spec-driven connection advertised the spec's max_datagram_frame_size
+	if f.Length(c.version) > wire.MaxDatagramSize || (c.uStreamWindows != nil && uint64(f.Length(c.version)) > c.uStreamWindows.datagram) {
 		return &qerr.TransportError{
 			ErrorCode:    qerr.ProtocolViolation,
 			ErrorMessage: "DATAGRAM frame too large",
